@@ -298,6 +298,45 @@ func c07FS(e *Env) {
 		}
 		nOpen++
 		key := fmt.Sprintf("%s:%s#%d", fname, f.Name(), nOpen)
+		// what is opened is the root-joined path: the argument is (a local assigned only from)
+		// `h.root + <string of the path variable>`
+		if len(call.Args) >= 1 {
+			var pathArg ast.Expr = call.Args[0]
+			if len(call.Args) >= 2 && types.Identical(info.TypeOf(call.Args[0]), info.TypeOf(call.Args[len(call.Args)-1])) == false {
+				for _, a := range call.Args {
+					if bt, ok := info.TypeOf(a).Underlying().(*types.Basic); ok && bt.Kind() == types.String {
+						pathArg = a
+						break
+					}
+				}
+			}
+			rooted := func(x ast.Expr) bool {
+				be, ok := unparen(x).(*ast.BinaryExpr)
+				return ok && be.Op == token.ADD && usedVar(info, be.X) == root
+			}
+			okRoot, why := rooted(pathArg), "`"+types.ExprString(pathArg)+"`"
+			if av := usedVar(info, pathArg); av != nil && !av.IsField() && !okRoot {
+				nDef, nRooted := 0, 0
+				ast.Inspect(hr.Decl.Body, func(m ast.Node) bool {
+					if as, ok := m.(*ast.AssignStmt); ok && len(as.Lhs) == len(as.Rhs) {
+						for i, l := range as.Lhs {
+							id, isID := l.(*ast.Ident)
+							if !isID || !(info.Defs[id] == types.Object(av) || info.Uses[id] == types.Object(av)) {
+								continue
+							}
+							nDef++
+							if rooted(as.Rhs[i]) {
+								nRooted++
+							}
+						}
+					}
+					return true
+				})
+				okRoot = nDef > 0 && nDef == nRooted
+			}
+			r.Check(okRoot, rule, key+":under-root", w.Pos(call.Pos()), "the path handed to the opener is the root joined with the request path",
+				why+" is not (a local assigned only from) `h.root + …`: the handler opens the request path as it stands — relative to the process's working directory or the file system root, outside the configured root")
+		}
 		okNul, okDD := false, false
 		// statements structurally dominating the call
 		for cur := ast.Node(call); cur != nil; cur = par[cur] {
